@@ -4,9 +4,11 @@ import (
 	"bytes"
 	"encoding/hex"
 	"fmt"
+	"io"
 	"os"
 	"sync"
 
+	"github.com/free5gc/nas/logger"
 	"github.com/free5gc/nas/security"
 	"github.com/free5gc/nas/security/snow3g"
 	"github.com/free5gc/nas/security/zuc"
@@ -282,9 +284,9 @@ func cryptoLengths(tier string) []int {
 	for n := 0; n <= top; n++ {
 		ls = append(ls, n)
 	}
-	bigs := []int{2048, 4096, 8192, 16384, 32768, 65536}
+	bigs := []int{2048, 4096, 8192, 16384, 32768, 65536, 131072, 262144}
 	if tier == "thorough" {
-		bigs = append(bigs, 131072, 524288, 600000)
+		bigs = append(bigs, 393216, 524288, 600000, 1048576, 2097152)
 	}
 	for _, b := range bigs {
 		for _, d := range []int{-64, -63, -32, -31, -8, -7, -1, 0, 1, 7, 8, 31, 32, 63, 64} {
@@ -725,12 +727,39 @@ func guarded(in []byte) (inner []byte, intact func() bool) {
 	return
 }
 
-// oracle "laws": I=[alg, count, bearer, dir]  B=[key, payload, other-payload-of-same-length]
+// withVerboseLogging runs fn with the library logger at Trace level (output
+// discarded), then restores the level. The level is an exported knob of the
+// library (logger.SetLogLevel); what the functions compute must not depend on it.
+func withVerboseLogging(fn func()) {
+	lg := logger.GetLogger()
+	old := lg.GetLevel()
+	lg.SetOutput(io.Discard)
+	lg.SetLevel(6) // logrus.TraceLevel
+	defer lg.SetLevel(old)
+	fn()
+}
+
+// oracle "laws": I=[alg, count, bearer, dir, (tight)]  B=[key, payload, other-payload-of-same-length]
+// With tight=1 the payload slices have exactly the capacity of their length.
 func c08Laws(c *core.Ctx, k *core.Case) {
 	alg, count, bearer, dir := uint8(k.I[0]), uint32(k.I[1]), uint8(k.I[2]), uint8(k.I[3])
 	key := key16(k.B[0])
 	p, q := k.B[1], k.B[2]
+	tight := len(k.I) > 4 && k.I[4]&1 == 1
+	verbose := len(k.I) > 4 && k.I[4]&2 == 2
+	if verbose && c.Scratch["verbose"] == nil {
+		c.Scratch["verbose"] = true
+		defer delete(c.Scratch, "verbose")
+		withVerboseLogging(func() { c08Laws(c, k) })
+		return
+	}
 	enc := func(in []byte) ([]byte, error) {
+		if tight {
+			b := make([]byte, len(in))
+			copy(b, in)
+			err := security.NASEncrypt(alg, key, count, bearer, dir, b)
+			return b, err
+		}
 		b, intact := guarded(in)
 		err := security.NASEncrypt(alg, key, count, bearer, dir, b)
 		if !intact() {
@@ -893,6 +922,12 @@ func c08Point(c *core.Ctx, k *core.Case) {
 		key[i] = byte(i*17 + 3)
 	}
 	nilPayload := len(k.I) > 3 && k.I[3] == 1
+	if len(k.I) > 4 && k.I[4]&2 == 2 && c.Scratch["verbose"] == nil {
+		c.Scratch["verbose"] = true
+		defer delete(c.Scratch, "verbose")
+		withVerboseLogging(func() { c08Point(c, k) })
+		return
+	}
 	var b []byte
 	if !nilPayload {
 		b = cloneB(k.B[0])
@@ -935,8 +970,8 @@ func c08Point(c *core.Ctx, k *core.Case) {
 
 func init() {
 	p := &core.Property{
-		ID:   "C08",
-		Rule: "laws: for valid parameters (alg 0..3, all 64 bearer×direction values) and payload lengths 0..300 plus a few large: length preservation, involution, prefix stability at word/block boundaries, keystream independence of the plaintext, determinism, NULL algorithm, 4-octet MAC, message untouched. grid: quick alg 0..7 × bearer 0..255 × direction 0..3 (thorough: all 256×256×256) × 3 payload lengths through NASEncrypt and NASMacCalculate: invalid ⇒ error and untouched payload, valid ⇒ nil error; nil payload for every algorithm. Non-trivial = valid parameters with non-empty payload, or an invalid combination; distinct by the parameter tuple.",
+		ID:          "C08",
+		Rule:        "laws: for valid parameters (alg 0..3, all 64 bearer×direction values) and payload lengths 0..300 plus a few large: length preservation, involution, prefix stability at word/block boundaries, keystream independence of the plaintext, determinism, NULL algorithm, 4-octet MAC, message untouched. grid: quick alg 0..7 × bearer 0..255 × direction 0..3 (thorough: all 256×256×256) × 3 payload lengths through NASEncrypt and NASMacCalculate: invalid ⇒ error and untouched payload, valid ⇒ nil error; nil payload for every algorithm. Non-trivial = valid parameters with non-empty payload, or an invalid combination; distinct by the parameter tuple.",
 		Assumptions: []string{"key arrays are passed by value, so key modification is unobservable by construction"},
 		Oracles:     map[string]func(*core.Ctx, *core.Case){"laws": c08Laws, "grid": c08Grid, "point": c08Point},
 		Exhaustive: func(tier string) (bool, string) {
@@ -991,6 +1026,26 @@ func init() {
 				}
 			}})
 		}
+		us = append(us, core.Unit{Name: "tight-and-verbose", Weight: 20, Run: func(c *core.Ctx) {
+			// exact-capacity payloads, and the same laws with the library logging at Trace level
+			idx := 0
+			for mode := int64(1); mode <= 3; mode++ {
+				for alg := 0; alg <= 3; alg++ {
+					for n := 0; n <= 40; n++ {
+						idx++
+						key, count := cryptoParams(c.R, idx)
+						k := &core.Case{Oracle: "laws", Target: "security.NASEncrypt", I: []int64{int64(alg), int64(count), int64(idx % 32), int64(idx & 1), mode}, B: [][]byte{key, c.R.Bytes(n), c.R.Bytes(n)}}
+						c.Do(k)
+						c.NonTrivial(k.Hash())
+						c.Cover("laws_mode", fmt.Sprint(mode))
+					}
+				}
+			}
+			for i := 0; i < 3000; i++ {
+				k := &core.Case{Oracle: "point", Target: "security", I: []int64{int64(c.R.Intn(8)), int64(c.R.Intn(40)), int64(c.R.Intn(3)), 0, 2}, B: [][]byte{c.R.Bytes(c.R.Intn(12))}}
+				c.Do(k)
+			}
+		}})
 		us = append(us, core.Unit{Name: "nil-payload", Weight: 1, Run: func(c *core.Ctx) {
 			for alg := 0; alg < 256; alg++ {
 				for _, bd := range [][2]int64{{0, 0}, {31, 1}, {32, 0}, {0, 2}, {255, 255}} {
